@@ -495,3 +495,158 @@ pub fn cross_family(k: usize, wide: bool) -> Vec<RefPacket> {
     }
     out
 }
+
+// ---------------------------------------------------------------------------------------------
+// name-sharing space (C03 / C04 / C07 / C11)
+
+/// All names of <= 3 labels over {a, b} (root included): 15 names.
+pub fn small_names() -> Vec<RefName> {
+    let mut out = vec![RefName::root()];
+    let labs = ["a", "b"];
+    let mut frontier: Vec<Vec<&str>> = vec![vec![]];
+    for _ in 0..3 {
+        let mut next = Vec::new();
+        for f in &frontier {
+            for l in labs {
+                let mut x = f.clone();
+                x.push(l);
+                next.push(x);
+            }
+        }
+        for n in &next {
+            out.push(RefName(n.iter().map(|l| b(l.as_bytes())).collect()));
+        }
+        frontier = next;
+    }
+    out
+}
+
+/// Record kinds carrying names in RDATA: (type code, number of names)
+pub const NAME_KINDS: [(u16, usize); 21] = [
+    (2, 1),   // NS
+    (5, 1),   // CNAME
+    (12, 1),  // PTR
+    (15, 1),  // MX
+    (6, 2),   // SOA
+    (14, 2),  // MINFO
+    (17, 2),  // RP
+    (18, 1),  // AFSDB
+    (21, 1),  // RT
+    (23, 1),  // NSAP-PTR
+    (7, 1),   // MB
+    (33, 1),  // SRV
+    (35, 1),  // NAPTR
+    (36, 1),  // KX
+    (46, 1),  // RRSIG
+    (47, 1),  // NSEC
+    (45, 1),  // IPSECKEY (domain gateway)
+    (64, 1),  // SVCB
+    (65, 1),  // HTTPS
+    (1, 0),   // A (no names)
+    (16, 0),  // TXT
+];
+
+/// RDATA of the given kind with its name fields set from `names` (cyclically).
+pub fn rdata_with_names(code: u16, names: &[RefName]) -> RefRData {
+    let sch = schema::schema(code).unwrap();
+    let mut vals = default_vals(sch);
+    let mut ni = 0usize;
+    for v in vals.iter_mut() {
+        match v {
+            Val::Name(n) => {
+                *n = names[ni % names.len().max(1)].clone();
+                ni += 1;
+            }
+            Val::Gateway(g) => {
+                *g = Gw::Domain(names[ni % names.len().max(1)].clone());
+                ni += 1;
+            }
+            _ => {}
+        }
+    }
+    RefRData::Typed { code, vals }
+}
+
+/// One packet of the sharing space: question(n0), answer owner n1 with `kind` RDATA over
+/// (n2[, n3]), additional A record owned by n3; with 5 slots an authority NS record owner n4 -> n0.
+pub fn sharing_packet(kind: u16, nnames: usize, slots: &[RefName]) -> RefPacket {
+    let mut p = RefPacket { id: 0x7e57, flags: F_QR | F_AA, ..Default::default() };
+    p.questions.push(RefQ { name: slots[0].clone(), qtype: 255, qclass: 1, unicast: false });
+    let rd_names: Vec<RefName> = if nnames >= 2 { vec![slots[2].clone(), slots[3].clone()] } else { vec![slots[2].clone()] };
+    p.answers.push(RefRR { name: slots[1].clone(), class: 1, cache_flush: false, ttl: 60, rdata: if nnames == 0 { RefRData::Typed { code: kind, vals: default_vals(schema::schema(kind).unwrap()) } } else { rdata_with_names(kind, &rd_names) } });
+    if slots.len() >= 5 {
+        p.authority.push(RefRR { name: slots[4].clone(), class: 1, cache_flush: false, ttl: 61, rdata: rdata_with_names(2, &[slots[0].clone()]) });
+    }
+    p.additional.push(RefRR { name: slots[3].clone(), class: 1, cache_flush: true, ttl: 62, rdata: RefRData::Typed { code: 1, vals: vec![Val::U32(0x0a00_0001)] } });
+    p
+}
+
+/// Enumerate the sharing space: every kind x every assignment of the 15 small names to the slots.
+/// Calls `f(kind index, assignment index, packet)`; returns the number of packets.
+pub fn sharing_space_size(nslots: usize) -> u64 {
+    NAME_KINDS.len() as u64 * 15u64.pow(nslots as u32)
+}
+
+pub fn sharing_case(nslots: usize, index: u64) -> RefPacket {
+    let names = small_names();
+    let per = 15u64.pow(nslots as u32);
+    let (code, nn) = NAME_KINDS[(index / per) as usize];
+    let mut a = index % per;
+    let mut slots = Vec::with_capacity(nslots);
+    for _ in 0..nslots {
+        slots.push(names[(a % 15) as usize].clone());
+        a /= 15;
+    }
+    sharing_packet(code, nn, &slots)
+}
+
+/// 16 KiB straddle family: a filler record sized so that the first occurrence of a shared name
+/// starts at `first_at`, followed by later uses of that name and of its suffixes.
+pub fn straddle_packet(first_at: usize, variant: usize) -> RefPacket {
+    // header 12 + root owner 1 + 10 fixed + filler F  => next record starts at 23 + F
+    let filler = first_at - 23;
+    let shared = RefName::txt("shared.example.com");
+    let suffix = RefName::txt("example.com");
+    let mut p = RefPacket { id: 0x1640, flags: F_QR, ..Default::default() };
+    p.answers.push(RefRR { name: RefName::root(), class: 1, cache_flush: false, ttl: 1, rdata: RefRData::Opaque { code: 10, data: bytes_n(filler, 1) } });
+    let later: Vec<RefRR> = match variant % 4 {
+        0 => vec![
+            RefRR { name: shared.clone(), class: 1, cache_flush: false, ttl: 2, rdata: rdata_with_names(2, &[shared.clone()]) },
+            RefRR { name: shared.clone(), class: 1, cache_flush: false, ttl: 3, rdata: rdata_with_names(5, &[suffix.clone()]) },
+        ],
+        1 => vec![
+            RefRR { name: shared.clone(), class: 1, cache_flush: false, ttl: 2, rdata: rdata_with_names(15, &[suffix.clone()]) },
+            RefRR { name: suffix.clone(), class: 1, cache_flush: false, ttl: 3, rdata: rdata_with_names(12, &[shared.clone()]) },
+            RefRR { name: RefName::txt("com"), class: 1, cache_flush: false, ttl: 4, rdata: rdata_with_names(2, &[RefName::txt("x.shared.example.com")]) },
+        ],
+        2 => vec![
+            RefRR { name: shared.clone(), class: 1, cache_flush: false, ttl: 2, rdata: rdata_with_names(6, &[shared.clone(), suffix.clone()]) },
+            RefRR { name: RefName::txt("other.example.com"), class: 1, cache_flush: false, ttl: 3, rdata: rdata_with_names(33, &[shared.clone()]) },
+            RefRR { name: shared.clone(), class: 1, cache_flush: false, ttl: 4, rdata: RefRData::Typed { code: 1, vals: vec![Val::U32(7)] } },
+        ],
+        _ => vec![
+            RefRR { name: shared.clone(), class: 1, cache_flush: false, ttl: 2, rdata: RefRData::Typed { code: 1, vals: vec![Val::U32(8)] } },
+            RefRR { name: shared.clone(), class: 1, cache_flush: false, ttl: 3, rdata: RefRData::Typed { code: 1, vals: vec![Val::U32(9)] } },
+        ],
+    };
+    for (i, r) in later.into_iter().enumerate() {
+        if i % 2 == 0 {
+            p.answers.push(r);
+        } else {
+            p.additional.push(r);
+        }
+    }
+    p
+}
+
+/// Messages grown towards 65535 bytes: n filler records of `each` bytes, names shared throughout.
+pub fn big_shared_packet(n: usize, each: usize) -> RefPacket {
+    let mut p = RefPacket { id: 0xb16, flags: F_QR, ..Default::default() };
+    p.questions.push(RefQ { name: RefName::txt("big.example.com"), qtype: 255, qclass: 1, unicast: false });
+    for i in 0..n {
+        let owner = if i % 2 == 0 { RefName::txt("big.example.com") } else { RefName(vec![b(format!("h{}", i).as_bytes()), b(b"example"), b(b"com")]) };
+        p.answers.push(RefRR { name: owner.clone(), class: 1, cache_flush: false, ttl: i as u32, rdata: RefRData::Opaque { code: 10, data: bytes_n(each, i as u8) } });
+        p.answers.push(RefRR { name: owner, class: 1, cache_flush: false, ttl: i as u32, rdata: rdata_with_names(2, &[RefName(vec![b(format!("ns{}", i % 3).as_bytes()), b(b"example"), b(b"com")])]) });
+    }
+    p
+}
